@@ -159,6 +159,60 @@ def zite(c, a, b):
     return z3.If(c, a, b)
 
 
+VAR_BOUNDS = {}      # z3 ast id -> (variable, lo, hi): fresh integers whose range is assumed globally by the engine
+_BOUNDS_CACHE = {}
+_INF = float('inf')
+
+
+def int_bounds(x, _depth=0):
+    """a syntactic interval for an integer term (constants, ranged variables, +, -, ite); (-inf, inf) when unknown.
+    Sound: the variable ranges are global assumptions of every query"""
+    if not is_sym(x): return (x, x) if isinstance(x, int) else (-_INF, _INF)
+    k = x.get_id()
+    r = _BOUNDS_CACHE.get(k)
+    if r is not None: return r[1]
+    if _depth > 400: return (-_INF, _INF)
+    res = (-_INF, _INF)
+    try:
+        if z3.is_int_value(x): v = x.as_long(); res = (v, v)
+        elif z3.is_const(x):
+            b = VAR_BOUNDS.get(k)
+            if b is not None: res = (b[1], b[2])
+        elif z3.is_add(x):
+            lo = hi = 0
+            for c in x.children():
+                l, h = int_bounds(c, _depth + 1); lo += l; hi += h
+            res = (lo, hi)
+        elif z3.is_sub(x) and x.num_args() == 2:
+            (l0, h0), (l1, h1) = int_bounds(x.arg(0), _depth + 1), int_bounds(x.arg(1), _depth + 1)
+            res = (l0 - h1, h0 - l1)
+        elif z3.is_app_of(x, z3.Z3_OP_ITE):
+            (l0, h0), (l1, h1) = int_bounds(x.arg(1), _depth + 1), int_bounds(x.arg(2), _depth + 1)
+            res = (min(l0, l1), max(h0, h1))
+    except RecursionError: res = (-_INF, _INF)
+    if len(_BOUNDS_CACHE) > 200000: _BOUNDS_CACHE.clear()
+    _BOUNDS_CACHE[k] = (x, res)
+    return res
+
+
+def int_leaves(x, _budget=None):
+    """the set of integers a term built from constants, ite and +/- can evaluate to (None when it is not of that shape or too large)"""
+    if not is_sym(x): return {x} if isinstance(x, int) else None
+    if z3.is_int_value(x): return {x.as_long()}
+    if z3.is_app_of(x, z3.Z3_OP_ITE):
+        a = int_leaves(x.arg(1)); b = int_leaves(x.arg(2))
+        if a is None or b is None or len(a) + len(b) > 64: return None
+        return a | b
+    if z3.is_add(x) or (z3.is_sub(x) and x.num_args() == 2):
+        acc = {0}
+        for i, c in enumerate(x.children()):
+            l = int_leaves(c)
+            if l is None or len(l) * len(acc) > 64: return None
+            acc = {p + (q if (z3.is_add(x) or i == 0) else -q) for p in acc for q in l}
+        return acc
+    return None
+
+
 def simp(x):
     if is_sym(x):
         y = z3.simplify(x)
